@@ -45,7 +45,8 @@ pub fn gen(seed: u64, n: usize, out: &mut String) {
             }
             4 => {
                 let fnum = match r.below(4) { 0 => *r.pick(&[0u64, 1, (1 << 31) - 1, 1 << 31, (1 << 31) + 1, (1u64 << 32) - 1, 1 << 32, (1 << 32) + 5]), 1 => wrap(&mut r, 3), _ => r.below(1 << 31) };
-                writeln!(out, "API a{} FR {} {}", i, fnum, r.below(2)).unwrap();
+                // sample selector: 0 all valid, 1 far out, 2 max+1, 3 min-1, 4 i32::MIN, 5 i32::MAX, 6 max (valid), 7 min (valid)
+                writeln!(out, "API a{} FR {} {}", i, fnum, r.below(8)).unwrap();
             }
             _ => {
                 let mt = r.below(2);
@@ -83,7 +84,9 @@ pub fn run(id: &str, rest: &str) -> String {
         "FR" => {
             let ch = 2; let bs = 64;
             let mut fb = FrameBuf::with_size(ch, bs).unwrap();
-            let mut s = vec![0i32; ch * bs]; if t[2] == "1" { s[17] = 1 << 20; }
+            let mut s = vec![0i32; ch * bs];
+            match t[2] { "1" => s[17] = 1 << 20, "2" => s[17] = 32768, "3" => s[18] = -32769, "4" => s[17] = i32::MIN, "5" => s[18] = i32::MAX,
+                         "6" => s[17] = 32767, "7" => s[18] = -32768, _ => {} }
             fb.fill_interleaved(&s).unwrap();
             let cfg = flacenc::config::Encoder::default().into_verified().unwrap();
             let info = StreamInfo::new(44100, ch, 16).unwrap();
@@ -97,7 +100,11 @@ pub fn run(id: &str, rest: &str) -> String {
             let bad: i64 = t[7].parse().unwrap();
             let nch = if ch == 0 || ch > 64 { 1 } else { ch };
             let mut samples = vec![0i32; n * nch];
-            if bad >= 0 && !samples.is_empty() { let p = (bad as usize * nch).min(samples.len() - 1); samples[p] = i32::MAX; }
+            if bad >= 0 && !samples.is_empty() {
+                let p = (bad as usize * nch).min(samples.len() - 1);
+                let lim: i64 = if (1..=31).contains(&bps) { 1i64 << (bps - 1) } else { 1 << 15 };
+                samples[p] = match bad % 4 { 0 => i32::MAX, 1 => i32::MIN, 2 => lim as i32, _ => (-lim - 1) as i32 };
+            }
             let src = VarSource { samples, ch, bps, rate, pos: 0, bytes_mode: false, hint: true, fail_at: None, reads: 0 };
             let (tx, rx) = std::sync::mpsc::channel();
             std::thread::spawn(move || {
